@@ -620,3 +620,87 @@ def r12_outputs_resolved_by_name(ctx):
 
 
 RULES.append(r12_outputs_resolved_by_name)
+
+
+def r13_visit_dispatch_and_dedup_entry(ctx):
+    """C11.R13: (a) `node_visit` classifies a node by its inputs first: a node without inputs is a *source* whether or not it has outputs (an
+    isolated node is both input-free and output-free; expansion splices a sub-graph source named in the input map to the expanded node's
+    input — dispatching the isolated node as a sink leaves it unconnected), a node with inputs and no outputs is a sink, the rest are
+    processors.  (b) `deduplicate_nodes` always runs the de-duplicating transformation: there is no cheap sufficient test for "nothing to
+    merge" (two equal nodes below *distinct* sources share a parent, they need not sit below duplicated sources)."""
+    repo = ctx.repo
+    fv = repo.func(f"{G}.visit.node_visit")
+    ctx.analysed(fv.qual)
+    table = []
+    for has_in, has_out, want in ((False, False, "source"), (False, True, "source"), (True, False, "sink"), (True, True, "processor")):
+        nd = _node("n", {"a": Sym("IN")} if has_in else {}, outputs=["0"] if has_out else [])
+        called = []
+
+        def mk(kind):
+            return ModelFn(kind, lambda run, a, k, n, f, _k=kind: (called.append(_k), Sym(f"RESULT_{_k}"))[1])
+        impl = Obj("builtins.object", {k: mk(k) for k in ("source", "sink", "processor", "node")}, name="IMPL")
+        ip = Interp(repo, inline={f"{NODE}.is_source", f"{NODE}.is_sink", f"{NODE}.is_processor"})
+        ps = ip.explore(fv, args={"impl": impl, "node": nd, "inputs": {"a": Sym("NEW")} if has_in else {}})
+        ctx.evals(len(ps))
+        got = sorted({vkey(p.exit[1]).replace("RESULT_", "") for p in ps if p.exit[0] == "return"})
+        table.append({"inputs": has_in, "outputs": has_out, "dispatched_to": got, "spec": want})
+        if got != [want]:
+            ctx.violation("C11.R13", fv.qual, loc(fv), "visit dispatch",
+                          f"node with{'' if has_in else 'out'} inputs and with{'' if has_out else 'out'} outputs is handed to {got}; expected the `{want}` callback — "
+                          f"{'an isolated node is a source: expansion connects sources named in the input map, a sink callback only renames it' if not has_in and not has_out else 'every transformer relies on this classification'}",
+                          row={"inputs": has_in, "outputs": has_out})
+        else:
+            ctx.ok("C11.R13", loc(fv), f"node_visit | inputs={has_in} outputs={has_out} -> {want}")
+    ctx.table("C11.R13", table)
+    fd = repo.func(f"{G}.deduplicate.deduplicate_nodes")
+    ctx.analysed(fd.qual)
+    n = 0
+    for p in Interp(repo, max_iter=1).explore(fd, args={"graph": Sym("GRAPH")}):
+        if p.exit[0] != "return":
+            continue
+        n += 1
+        rv = p.exit[1]
+        if not (isinstance(rv, App) and rv.fname.endswith("transform") and any(vkey(a) == "GRAPH" for a in rv.args)):
+            ctx.violation("C11.R13", fd.qual, loc(fd), "de-duplication always performed",
+                          f"deduplicate_nodes returns {vkey(rv)[:80]} on the path where {', '.join(f'{d.key[:50]}={d.value}' for d in p.decisions[-2:]) or 'no condition'}: the graph "
+                          f"is handed back without the de-duplicating transformation, so equal nodes (same payload, outputs and inputs) below distinct sources stay")
+            break
+    else:
+        ctx.ok("C11.R13", loc(fd), "deduplicate_nodes: every path returns the transformed graph")
+    ctx.floor("C11.R13.dedup_paths", n, 1)
+
+
+RULES.append(r13_visit_dispatch_and_dedup_entry)
+
+
+def r14_key_evaluated_once(ctx):
+    """C11.R14: splitting places every node in exactly one part: the part of a node is the value the key function returned *when the node was
+    visited*, carried along with the transformed node.  The key function is user code (`depth // 2`, a round-robin counter, anything hashable) and
+    the splitter rewires visited nodes to cut placeholders in place, so asking it again later — for the producer of an input, for a sink — may
+    give another answer than the one the node was placed under; the reported cuts then name parts the nodes are not in.  Structural rule: in
+    `Splitter`, `self.key(...)` is applied only to the node being visited, in the node callback."""
+    repo = ctx.repo
+    cq = f"{G}.split.Splitter"
+    ci = repo.classes[cq]
+    n = 0
+    bad = None
+    for mname, fi in ci.methods.items():
+        for node in walk_scope(fi.node):
+            if isinstance(node, ast.Call) and isinstance(node.func, ast.Attribute) and node.func.attr == "key" \
+                    and isinstance(node.func.value, ast.Name) and node.func.value.id == "self":
+                n += 1
+                arg = node.args[0] if node.args else None
+                first = next((p_ for p_ in fi.params if p_ != "self"), None)
+                if mname != "node" or not (isinstance(arg, ast.Name) and arg.id == first):
+                    bad = (fi, node)
+    if bad:
+        fi, node = bad
+        ctx.violation("C11.R14", fi.qual, loc(fi, node), "the key function is asked once per node",
+                      f"{fi.qual} evaluates {ast.unparse(node)}: the part of a node is decided when it is visited; re-computing the key of an already visited node (a parent, "
+                      f"a sink) can give a different part for impure or structure-dependent key functions, so cut edges name parts their endpoints are not in")
+    else:
+        ctx.ok("C11.R14", loc(ci.methods["node"]) if "node" in ci.methods else cq, "Splitter: self.key is applied to the visited node only, once")
+    ctx.floor("C11.R14.key_calls", n, 1)
+
+
+RULES.append(r14_key_evaluated_once)
